@@ -331,7 +331,6 @@ class _(_Line):
     district, otherwise nothing happens."""
     allowed_raises = ("Unidentifiable",)
     inline_only = True
-    domain = "graph"
 
     def raises(self, ex, a):
         L, g = ex.L, a.g
